@@ -185,15 +185,28 @@ def urlOk (p : Policy) (v : Bytes) : Bool :=
     (!hasWsOrCtl v || s == b!"data")
   | .relative => p.allowRelativeURLs && !hasWsOrCtl v
 
-def oracleC03 (p : Policy) (out : Bytes) : Bool :=
+/-- the results of the src rewriter `f` on the src values of the input's `el` tags: each value as
+    the policy's URL check hands it on (trimmed, normalised), parsed, rewritten, printed -/
+def rewrittenSrcs (p : Policy) (f : UrlRewriter) (inp : Bytes) (el : Bytes) : List Bytes :=
+  (tokenize inp).flatMap fun t =>
+    if (t.tt == .start || t.tt == .selfClosing) && t.data == el then
+      t.attrs.filterMap fun a =>
+        if a.key == b!"src" then
+          (p.validURL a.val).bind fun u => (Url.parse u).map fun parsed => Url.print (f parsed)
+        else none
+    else []
+
+def oracleC03 (p : Policy) (inp out : Bytes) : Bool :=
   !p.requireParseableURLs ||
   (tokenize out).all fun t =>
     if t.tt == .start || t.tt == .selfClosing then
       t.attrs.all fun a =>
         !isUrlPosition t.data a.key ||
-        -- with a src rewriter installed a surviving src is the rewriter's result, whatever it is
-        (p.srcRewriter.isSome && a.key == b!"src") ||
-        urlOk p a.val
+        -- with a src rewriter installed every surviving src is the rewriter's result for one of the
+        -- src values the input gave to an element of that name, whatever that result is
+        (match p.srcRewriter with
+         | some f => if a.key == b!"src" then (rewrittenSrcs p f inp t.data).contains a.val else urlOk p a.val
+         | none => urlOk p a.val)
     else true
 
 /-! ### C06 -/
